@@ -56,8 +56,10 @@ func newMiniCA(rng io.Reader, name string, rootNB, rootNA, leafNB, leafNA time.T
 	}
 	root, _ := x509.ParseCertificate(rb)
 	leafTpl := &x509.Certificate{Subject: c01Name(name+" signer", 2), SerialNumber: big.NewInt(2),
+		// no extended key usage, like the certificates sign/ops issues: verify.CheckCertificate chains with
+		// x509's default usage (server auth), which a code-signing-only certificate never satisfies
 		NotBefore: leafNB, NotAfter: leafNA, KeyUsage: x509.KeyUsageDigitalSignature,
-		ExtKeyUsage: []x509.ExtKeyUsage{x509.ExtKeyUsageCodeSigning}, SignatureAlgorithm: x509.SHA256WithRSAPSS}
+		SignatureAlgorithm: x509.SHA256WithRSAPSS}
 	lb, err := x509.CreateCertificate(rng, leafTpl, root, lk.Public(), rk)
 	if err != nil {
 		panic(err)
